@@ -24,7 +24,7 @@ def run(ctx, model_ok):
                        "all four fields; distinct = observer rows")
     ctx.cov["samples"] = [ost]
     ctx.cov["not_shown"] = ["IEEE overflow/underflow, NaN from inf-inf, float termination of the cel/el3 loops: outside exact real arithmetic, watchdogged oracle only",
-                            "definedness of Cuboid/Cylinder/Segment/Circle/Triangle closed forms off their special sets (kernels not ported to the real carrier)"]
+                            "definedness of Cuboid/Cylinder/CylinderSegment/Circle/Triangle closed forms off their special sets (kernels not ported to the real carrier)"]
 
 
 def replay(ctx, payload):
